@@ -232,7 +232,7 @@ fn encode_side(ctx: &Ctx) -> Outcome {
         let nv = crate::props::codes::n_direct_write_variants(code) as u8;
         for v in 0..=(wmax + 70) {
             for wvar in 0..nv {
-                items.push(Item { code, v, wvar });
+                items.push(Item { code, v, wvar, follow: 0xFFFF });
             }
         }
     }
